@@ -21,6 +21,8 @@ def run(tier):
                  ("MC_CloseGroup_big4.cfg", "attack mode, 100-type grid, multisets <= 4"),
                  ("MC_CloseGroup_normal_big.cfg", "normal mode, multisets <= 10 (184 756 profiles)"),
                  ("MC_CloseGroup_fliars_big.cfg", "f=3: 7 honest deniers + every triple of liars")]
+    if os.environ.get("VERIF_DEV_SKIP_MC"):      # developer aid for mutation runs: design part skipped, evidence incomplete
+        runs = []
     for cfg, what in runs:
         r = vlib.tlc_must_hold("CloseGroup", cfg, what, workers=8, timeout=3000)
         rep.add_tlc(r, "CloseGroup " + cfg)
@@ -32,6 +34,8 @@ def run(tier):
     for inv in ("NeverAccepted", "NeverUnanimousPremise", "NeverFLiarsPremise", "NeverCollusion"):
         names.append(inv)
         jobs.append(lambda inv=inv: vlib.tlc_must_fail("CloseGroup", "MC_CloseGroup_vac_%s.cfg" % inv, "non-vacuity probe " + inv, workers=1))
+    if os.environ.get("VERIF_DEV_SKIP_MC"):
+        jobs, names = [], []
     for n, r in zip(names, a_common.parallel(jobs)):
         dev[n] = r.violated
     rep.coverage["deviation_counterexamples"] = dev
@@ -59,8 +63,11 @@ def run(tier):
         rep.violation(v["clause"], v["site"], v["cond"], {"line": v["line"], "config": seg, "event": ev, "trace": trace})
     if res["nviol"] > len(res["viol"]):
         rep.notes.append("%d violations in total, first %d per shard kept" % (res["nviol"], len(res["viol"])))
-    # 3. binding self-test
-    selftest(recs, wd)
+    # 3. binding self-test (on events the main validation accepted)
+    if a_common.mark_bad(recs, res):
+        selftest(recs, wd)
+    else:
+        rep.notes.append("self-test skipped: violation list capped")
     return rep.finish(
         rule="a case = (configuration, mode, candidate trust, witness vector) given to the real validate_membership, plus each "
              "one-flip neighbour; families: property grid, fraction boundary, f-liars, unanimous (+ one premise broken), random "
@@ -79,7 +86,7 @@ def selftest(recs, wd):
     cut = recs[:500]
     muts = {}
     for i, e in enumerate(cut):
-        if e["ev"] != "Validate":
+        if e["ev"] != "Validate" or e.get("_bad"):
             continue
         if "accept_fliars" not in muts and e["fam"] == "fliars" and e["bft"] and not e["v"]["valid"] \
                 and "InsufficientConfirmation" in e["v"]["reasons"]:
@@ -90,7 +97,7 @@ def selftest(recs, wd):
         if "reject_unanimous" not in muts and e["fam"] == "unanimous" and e["v"]["valid"]:
             m = copy.deepcopy(cut)
             for x in m:
-                if x["ev"] == "Validate" and x["fam"] == "unanimous" and x["v"]["valid"]:
+                if x["ev"] == "Validate" and x["fam"] == "unanimous" and x["v"]["valid"] and not x.get("_bad"):
                     x["v"]["valid"] = False
             muts["reject_unanimous"] = m
         if "flip_accept" not in muts and not e["v"]["valid"] and e["flips"]:
